@@ -125,7 +125,13 @@ func doOp(api API, op *Op) *Res {
 			r.setAttr(x.Resok.File_wcc.After)
 		}
 	case OpCreate:
-		x := api.NFSPROC3_CREATE(nt.CREATE3args{Where: nt.Diropargs3{Dir: fh3(op.H), Name: nt.Filename3(op.Name)}, How: nt.Createhow3{Mode: nt.Createmode3(op.Mode)}})
+		how := nt.Createhow3{Mode: nt.Createmode3(op.Mode)}
+		if op.SetSize {
+			// initial attributes of the new file (UNCHECKED/GUARDED): a size
+			how.Obj_attributes.Size.Set_it = true
+			how.Obj_attributes.Size.Size = nt.Size3(op.Size)
+		}
+		x := api.NFSPROC3_CREATE(nt.CREATE3args{Where: nt.Diropargs3{Dir: fh3(op.H), Name: nt.Filename3(op.Name)}, How: how})
 		r.Stat = uint32(x.Status)
 		if x.Status == nt.NFS3_OK {
 			r.setFH(x.Resok.Obj)
